@@ -155,6 +155,14 @@ WITNESS = [
     a = 1
   return a
 '''),
+    ('w:for_target_zero_trip', M_DEFAULT, '''def f(x, n, b, xs):
+  i = 7
+  if b:
+    i = -1
+  for i in range(n):
+    pass
+  return i
+'''),
     ('w:lists_closure_append', M_LISTS, '''def f(x, n, b, xs):
   l = [0]
   def h(p):
@@ -173,6 +181,29 @@ def _effectful_chain(src):
       for mid in node.comparators[:-1]:
         if any(isinstance(k, ast.Call) for k in ast.walk(mid)):
           return True
+  return False
+
+
+def _branch_assign_to_later_for_target(src):
+  """A name assigned inside an if/while/for body and used later as a for-loop target."""
+  import ast
+  for fn in ast.walk(ast.parse(src)):
+    if not isinstance(fn, ast.FunctionDef):
+      continue
+    targets = {}
+    for n in ast.walk(fn):
+      if isinstance(n, ast.For):
+        for t in ast.walk(n.target):
+          if isinstance(t, ast.Name):
+            targets.setdefault(t.id, []).append(n.lineno)
+    for n in ast.walk(fn):
+      if isinstance(n, (ast.If, ast.While, ast.For)):
+        for st in ast.walk(n):
+          if isinstance(st, ast.Assign):
+            for t in st.targets:
+              if isinstance(t, ast.Name) and any(l > n.lineno for l in targets.get(t.id, [])) \
+                  and not (isinstance(n, ast.For) and any(isinstance(q, ast.Name) and q.id == t.id for q in ast.walk(n.target))):
+                return True
   return False
 
 
@@ -196,6 +227,8 @@ def classify(p, m, r):
   tags = set()
   if r.get('kind') == 'mismatch' and _effectful_chain(p.src):
     tags.add('chained_comparison_effectful_middle_operand')
+  if r.get('kind') == 'mismatch' and _branch_assign_to_later_for_target(p.src):
+    tags.add('assignment_in_branch_to_later_for_target_lost_on_zero_trip')
   if (r.get('kind') == 'mismatch' and 'LISTS' in (m.get('features') or ())
       and _append_on_enclosing_list(p.src)):
     tags.add('lists_feature_append_rebinds_nonlocal_list')
